@@ -754,6 +754,15 @@ def pncbo(op, ifile1, ifile2, coordkeys=None, verbose=0):
             unit2 = getattr(in2var, 'units', 'unknown')
             propd['units'] = '(%s) %s (%s)' % (unit1, op, unit2)
             outval = eval('in1var[...] %s in2var[...]' % op)
+            if np.shape(outval) != tuple(in1var.shape):
+                # e.g. a length-1 axis of ifile1 broadcast against a longer
+                # axis of ifile2: the result cannot be described by the
+                # dimensions of ifile1
+                raise ValueError(
+                    ('%s: %s %s %s has shape %s, which does not match the ' +
+                     'dimensions of ifile1 %s; files do not conform') % (
+                        k, in1var.shape, op, in2var.shape,
+                        np.shape(outval), in1var.dimensions))
             outmask = np.ma.getmaskarray(outval)
             outval = np.ma.getdata(outval).view(np.ndarray)
             outval = np.ma.masked_array(
